@@ -110,8 +110,6 @@ def instances(ck):
             lambda c, n=n, k=k, c_=c_: cnfgen.CliqueColoring(n, k, c_, formula_class=c),
             both=(nv <= 9))
     if not q:
-        recs.append(gen.build("cliquecol-4-2-2-CNF", "cliquecol", {"n": 4, "k": 2, "c": 2},
-                              lambda: cnfgen.CliqueColoring(4, 2, 2)))
         recs.append(gen.build("cliquecol-3-3-2-CNF", "cliquecol", {"n": 3, "k": 3, "c": 2},
                               lambda: cnfgen.CliqueColoring(3, 3, 2)))
     return recs
